@@ -1,6 +1,7 @@
 import ColaVerif.Model.FFTOp
 import ColaVerif.Basic.GRat
 import ColaVerif.Lemmas.Bridge
+import ColaVerif.Lemmas.SmallKernels
 import Mathlib.Algebra.Ring.GeomSum
 import Mathlib.Algebra.Star.BigOperators
 import Mathlib.RingTheory.RootsOfUnity.PrimitiveRoots
@@ -65,6 +66,47 @@ theorem fftDen_conj [CommSemiring K] [StarRing K] (n : Nat) (ω s : K) (hs : sta
     conjM (fftDen n ω s) = fftDen n (star ω) s := by
   funext j k
   simp only [conjM, fftDen, star_mul', star_pow, hs]
+
+/-! ## the lazy wrappers `Transpose(FFT)`, `Adjoint(FFT)` and `to_dense` -/
+
+/-- `to_dense`: `A @ eye(n)` is the DFT matrix on the window -/
+theorem fftToDense_eq [CommSemiring K] (n : Nat) (ω s : K) :
+    EqOn n n (fftToDense n ω s).f (fftDen n ω s) := by
+  intro i j _ hj
+  rw [fftToDense, fftMatmat_eq, mmul_eyeM_right n _ i j hj]
+
+/-- `Transpose(FFT)._matmat`: `(Xᵀ @ F)ᵀ = Fᵀ @ X` -/
+theorem fftTMatmat_eq [CommSemiring K] [StarRing K] (n : Nat) (ω s : K) (hs : star s = s)
+    (b : Nat) (X : MatF K) :
+    (fftTMatmat n ω s b X).f = mmul n (transposeM (fftDen n ω s)) X := by
+  funext k c
+  simp only [fftTMatmat, forceV_f, fftRmatmat_eq n ω s hs, transposeM, mmul_apply]
+  exact Finset.sum_congr rfl fun j _ => mul_comm _ _
+
+/-- `Transpose(FFT)._rmatmat`: `(F @ Xᵀ)ᵀ = X @ Fᵀ` -/
+theorem fftTRmatmat_eq [CommSemiring K] (n : Nat) (ω s : K) (b : Nat) (X : MatF K) :
+    (fftTRmatmat n ω s b X).f = mmul n X (transposeM (fftDen n ω s)) := by
+  funext r k
+  simp only [fftTRmatmat, forceV_f, fftMatmat_eq, transposeM, mmul_apply]
+  exact Finset.sum_congr rfl fun j _ => mul_comm _ _
+
+/-- `Adjoint(FFT)._matmat`: `conj(conj(X)ᵀ @ F)ᵀ = Fᴴ @ X` -/
+theorem fftHMatmat_eq [CommSemiring K] [StarRing K] (n : Nat) (ω s : K) (hs : star s = s)
+    (b : Nat) (X : MatF K) :
+    (fftHMatmat n ω s b X).f = mmul n (conjM (transposeM (fftDen n ω s))) X := by
+  funext k c
+  simp only [fftHMatmat, forceV_f, fftRmatmat_eq n ω s hs, transposeM, conjM, mmul_apply,
+    star_sum, star_mul', star_star]
+  exact Finset.sum_congr rfl fun j _ => mul_comm _ _
+
+/-- `Adjoint(FFT)._rmatmat`: `conj(F @ conj(X)ᵀ)ᵀ = X @ Fᴴ` -/
+theorem fftHRmatmat_eq [CommSemiring K] [StarRing K] (n : Nat) (ω s : K) (b : Nat)
+    (X : MatF K) :
+    (fftHRmatmat n ω s b X).f = mmul n X (conjM (transposeM (fftDen n ω s))) := by
+  funext r k
+  simp only [fftHRmatmat, forceV_f, fftMatmat_eq, transposeM, conjM, mmul_apply, star_sum,
+    star_mul', star_star]
+  exact Finset.sum_congr rfl fun j _ => mul_comm _ _
 
 /-! ## the hypotheses on root and scale -/
 
@@ -197,7 +239,9 @@ theorem fftParams_four : FFTParams 4 (⟨0, -1⟩ : GRat) ⟨1 / 2, 0⟩ where
     have hre := congrArg GRat.re hx
     have him := congrArg GRat.im hx
     interval_cases d <;> norm_num [pow_succ] at hre him <;> ext <;> (simp; linarith)
-  scale := by ext <;> simp [-Nat.cast_ofNat] <;> norm_num
+  scale := by
+    ext <;> simp [-Nat.cast_ofNat]
+    norm_num
   star_scale := by ext <;> norm_num
 
 /-- `n = 2` over ANY commutative star ring containing a real `s` with `2 s² = 1` (`√2` stays
@@ -222,6 +266,10 @@ theorem fftParams_two [CommRing K] [StarRing K] (s : K) (hscale : s * s * ((2 : 
   star_scale := hs
 
 #print axioms fftMatmat_eq
+#print axioms fftToDense_eq
+#print axioms fftTMatmat_eq
+#print axioms fftHMatmat_eq
+#print axioms fftHRmatmat_eq
 #print axioms fftRmatmat_eq
 #print axioms fft_gram_entry
 #print axioms fft_unitary_matrix
